@@ -149,6 +149,7 @@ pub fn replay(prop: &str, rp: &Value) -> Vec<Violation> {
     match rp.get("model").and_then(|m| m.as_str()) {
         Some("agent") => crate::agent::model::replay(prop, rp),
         Some("agent-schedule") => crate::agent::schedule::replay(prop, rp),
+        Some("agent-scale") => crate::agent::scale::replay(prop, rp),
         other => {
             eprintln!("MACHINERY-FAILURE: replay names unknown model {other:?}");
             std::process::exit(2)
